@@ -260,7 +260,8 @@ def map_subset_to_sample_augmented(subset_vect, cycle_vect, ii, phase):
 def map_sample_to_subset(subset_vect, cycle_vect, ii):
     """Which subset cycle does the ii-th sample belong to?"""
     all_cycle_ind = map_sample_to_cycle(cycle_vect, ii)
-    if all_cycle_ind is None:
+    if all_cycle_ind is None or all_cycle_ind < 0:
+        # Sample is not part of any cycle (-1 in the cycle vector)
         return None
     return map_cycle_to_subset(subset_vect, all_cycle_ind)
 
@@ -290,7 +291,7 @@ def map_cycle_to_chain(chain_vect, subset_vect, ii):
 def map_chain_to_cycle(chain_vect, subset_vect, ii):
     """Which of all cycles does the ii-th chain contain"""
     subset_ind = map_chain_to_subset(chain_vect, ii)
-    cycle_ind = np.squeeze([map_subset_to_cycle(subset_vect, jj) for jj in subset_ind])
+    cycle_ind = np.atleast_1d(np.squeeze([map_subset_to_cycle(subset_vect, jj) for jj in subset_ind]))
     if (len(cycle_ind) > 1) and (np.all(np.diff(cycle_ind) == 1) is False):
         # Mapped cycles are not continuous!
         raise ValueError
